@@ -753,7 +753,50 @@ def _explicit_byte_orders(m, r):
                 s.default_byte_order = r.choice(["LittleEndian", "BigEndian"])
 
 
-def gen_module(r, default_byte_order=True):
+def _add_logic_probes(m):
+    """Three-valued logic probes: virtual boolean fields `late ∘ early` and `early ∘ late` for
+    ∘ ∈ {&&, ||} over two always-present small unsigned fields at *different* positions of a top
+    struct.  On a truncated buffer that holds `early` but not `late` one operand is unknown and the
+    other known, in both operand orders and with both deciding and non-deciding values — where the
+    documented rule ("even if the other argument cannot be computed", both ways round) shows.
+    Only virtual fields are appended (sizes, offsets and every other field are unchanged), and the
+    choices come from a generator seeded with the module's own text: no draw is taken from the
+    caller's stream, so the modules are otherwise identical with and without probes."""
+    import hashlib
+    import random
+    for s in m.tops:
+        if s.name.startswith("Ar"):
+            continue
+        cands = [f for f in s.fields if f.kind == "uint" and f.bits <= 16 and not f.virtual and f.cond is None
+                 and f.start[0] == "n"]
+        cands.sort(key=lambda f: f.start[1])
+        if len(cands) < 2 or cands[0].start[1] == cands[-1].start[1]:
+            continue
+        r2 = random.Random(hashlib.sha256((struct_text(s) + s.name).encode()).digest())
+        early, late = ("f", cands[0].name), ("f", cands[-1].name)
+
+        def cmp(ref):
+            return (r2.choice(["==", "!=", ">", "<="]), ref, ("n", r2.choice([0, 1, 1, 2])))
+        k = 0
+        for op in ("&&", "||"):
+            for a, b in ((late, early), (early, late)):
+                k += 1
+                s.fields.append(Field("lg%d_%s" % (k, s.name.lower()), "virtual", value=(op, cmp(a), cmp(b)),
+                                      vtype="bool"))
+                m.features["logic_probe_" + op] += 1
+    m.text = module_text(m)
+
+
+def gen_module(r, default_byte_order=True, logic_probes=False):
+    m = _gen_module(r, default_byte_order)
+    if logic_probes:
+        _add_logic_probes(m)
+        if not default_byte_order:
+            m.text = module_text(m).replace('[$default byte_order: "%s"]\n' % m.byte_order, "", 1)
+    return m
+
+
+def _gen_module(r, default_byte_order=True):
     m = GenModule()
     names = _Names()
     m.byte_order = r.choice(["LittleEndian", "BigEndian"])
